@@ -225,7 +225,11 @@ func (g *worldGen) typ() *WType {
 			t.Branches = []*WType{{K: "string"}, {K: "int"}}
 		}
 		if r.Chance(1, 3) {
-			t.Branches = append(t.Branches, &WType{K: "null"})
+			if r.Chance(1, 3) {
+				t.Branches = append([]*WType{{K: "null"}}, t.Branches...)
+			} else {
+				t.Branches = append(t.Branches, &WType{K: "null"})
+			}
 		}
 		return t
 	case 10:
@@ -233,6 +237,9 @@ func (g *worldGen) typ() *WType {
 		t := g.typ()
 		if g.opts.Plain && (t.K == "union" || t.K == "allof") {
 			t = g.scalar()
+		}
+		if r.Chance(1, 3) {
+			return &WType{K: "union", Branches: []*WType{{K: "null"}, t}} // `null | T` is as valid as `T | null`
 		}
 		return &WType{K: "union", Branches: []*WType{t, {K: "null"}}}
 	case 11:
